@@ -10,8 +10,9 @@ LEVEL = "exploration"
 RULE = (
     "plane: every erase-block size 1..512 x every residue of the slot length modulo the block size x {first, later} "
     "slot, plus block sizes 1KiB..64KiB x boundary residues, through cmd_cache_create.main(from_payloads); Hypothesis "
-    "sequences of 1-6 slots through from_payloads / merge (1-4 inputs, different block sizes) / from_envelope, with "
-    "duplicate-URI negatives. Non-trivial = padding branch other than 'none' or >= 2 slots; distinct by "
+    "sequences of 1-6 slots through from_payloads / merge (1-4 inputs, different block sizes) / from_envelope (flat, and dependency trees to depth 3 selected by "
+    "--dependency-regex with payloads on every level), with duplicate-URI negatives (also across tree levels); URIs incl. percent escapes, "
+    "query strings, blanks and non-ASCII are opaque keys. Non-trivial = padding branch other than 'none' or >= 2 slots; distinct by "
     "(producer, eb, per-slot (position, residue, padding branch, uri-length class))."
 )
 ASSUMPTIONS = [
@@ -178,6 +179,32 @@ def _judge(case, acc, main, d):
             fh.write(sut.create_mem(desc))
         kwargs = dict(cache_create_subcommand="from_envelope", eb_size=eb, input_envelope=env, output_envelope=os.path.join(d, "out.suit"), output_file=out,
                       omit_payload_regex=None, dependency_regex=None)
+    elif producer == "envelope-tree":
+        # hierarchical envelope created by the tool: payloads on every level, dependencies named DEP-<path> and selected by --dependency-regex;
+        # every payload of every level goes to the cache, and a URI occurring twice anywhere in the tree is a duplicate
+        from .. import sut
+
+        pairs = []
+
+        def build(node, path, seqn):
+            _, prs = _write_payloads(d, node["slots"], prefix=f"t{path}_")
+            pairs.extend(prs)
+            e = {"suit-authentication-wrapper": {"SuitDigest": {"suit-digest-algorithm-id": "cose-alg-sha-256"}},
+                 "suit-manifest": {"suit-manifest-version": 1, "suit-manifest-sequence-number": seqn, "suit-common": {}}}
+            if prs:
+                e["suit-integrated-payloads"] = {u: p.hex() for u, p in prs}
+            if node.get("deps"):
+                e["suit-integrated-dependencies"] = {f"DEP-{path}{j}": build(ch, f"{path}{j}.", seqn + 1) for j, ch in enumerate(node["deps"])}
+            if node.get("deps_first") and "suit-integrated-dependencies" in e and "suit-integrated-payloads" in e:
+                e["suit-integrated-payloads"] = e.pop("suit-integrated-payloads")
+            return {"SUIT_Envelope_Tagged": e}
+
+        desc = build(case, "", 1)
+        env = os.path.join(d, "in.suit")
+        with open(env, "wb") as fh:
+            fh.write(sut.create_mem(desc))
+        kwargs = dict(cache_create_subcommand="from_envelope", eb_size=eb, input_envelope=env, output_envelope=os.path.join(d, "out.suit"), output_file=out,
+                      omit_payload_regex=None, dependency_regex=r"DEP-[0-9.]+")
     else:
         raise boot.HarnessError(f"unknown producer {producer}")
     uris = [u for u, _ in pairs]
@@ -196,6 +223,11 @@ def _judge(case, acc, main, d):
         raised = e
     nt_key, branches = _nt_key(producer, eb, pairs)
     classes = [f"producer:{producer}"] + [f"branch:{b}" for b in set(branches)]
+    if producer == "envelope-tree":
+        if any(ch["deps"] for ch in case["deps"]):
+            classes.append("tree:depth>=2")
+        if dup and len(set(u for u, _, _ in case["slots"])) == len(case["slots"]):
+            classes.append("tree:duplicate-across-levels")
     if dup:
         acc.case(nt_key=("dup", producer, eb, len(pairs)), classes=classes + ["negative:duplicate-uri"], sample=case, sample_key=f"dup/{producer}")
         if raised is None:
@@ -277,7 +309,11 @@ def run_shard(ctx, spec):
             st.sampled_from([1, 22, 23, 24, 25, 255, 256, 300]).flatmap(
                 lambda n: st.text(alphabet="abcxyz", min_size=n, max_size=n)
             ),
-            st.text(min_size=1, max_size=8).filter(lambda s: "," not in s and "\x00" not in s and _enc_ok(s)),
+            st.text(min_size=1, max_size=8).filter(lambda s: "," not in s and "\x00" not in s and _enc_ok(s) and not s.startswith("DEP-")),
+            # URIs are opaque keys: percent escapes, query strings, '+' and blanks are stored as given
+            st.sampled_from(["app%20core.bin", "a%2Cb", "%25", "x%41", "file://%7Euser/fw.bin", "http://h/p?q=1&r=%2F#frag", "a+b", "a b", "%", "%zz", "%e2%82%ac",
+                             "C:\\fw\\app.bin", "\"quoted\"", "'q'", "a;b", "a=b", "$HOME", "~", "../up", "./x", "//", "\u00e9t\u00e9.bin", "\u20ac"]),
+            st.text(alphabet="ab%2C5 +", min_size=1, max_size=8),
         )
         ebs = st.one_of(st.integers(1, 64), st.sampled_from([1, 2, 4, 8, 16, 32, 64, 128, 256, 512, 1024, 4096]), st.integers(1, 5000))
         slot = st.tuples(uri, st.one_of(st.integers(0, 80), st.integers(0, 5000), st.sampled_from([0, 1, 23, 24, 255, 256, 65535, 65536])), st.integers(0, 9)).map(list)
@@ -297,7 +333,46 @@ def run_shard(ctx, spec):
             lambda eb, ins: {"producer": "merge", "eb": eb, "inputs": _force_dup(_dedupe(ins))},
             ebs, st.lists(st.builds(lambda e, s: {"eb": e, "slots": s}, ebs, slots(1, 3, True)), min_size=2, max_size=4))
         envp = st.builds(lambda eb, sl: {"producer": "envelope", "eb": eb, "slots": [[u, min(n, 3000), f] for u, n, f in sl]}, ebs, slots(1, 6, True))
-        strat = st.one_of(pay, pay, merge, merge, paydup, mergedup, envp)
+        small = st.lists(st.tuples(uri, st.one_of(st.integers(0, 80), st.sampled_from([0, 1, 23, 24, 255, 256, 3000])), st.integers(0, 9)).map(list), max_size=3)
+
+        def tree_s(depth):
+            kids = st.just([]) if depth >= 2 else st.lists(st.deferred(lambda: tree_s(depth + 1)), max_size=2)
+            return st.builds(lambda sl, ds, df: {"slots": sl, "deps": ds, "deps_first": df}, small, kids, st.booleans())
+
+        def _tree_nodes(t):
+            yield t
+            for ch in t["deps"]:
+                yield from _tree_nodes(ch)
+
+        def _tree_unique(t):
+            seen = set()
+            for j, node in enumerate(_tree_nodes(t)):
+                for sl in node["slots"]:
+                    while sl[0] in seen:
+                        sl[0] = sl[0] + str(j)
+                    seen.add(sl[0])
+            return t
+
+        def _tree_dup(t, i, j):
+            nodes = [n for n in _tree_nodes(t)]
+            withs = [n for n in nodes if n["slots"]]
+            if len(withs) < 2:
+                # give a dependency a copy of a root URI
+                if not t["slots"]:
+                    t["slots"].append(["r", 3, 1])
+                if not t["deps"]:
+                    t["deps"].append({"slots": [], "deps": [], "deps_first": False})
+                t["deps"][-1]["slots"].append([t["slots"][0][0], 5, 2])
+                return t
+            a, b = withs[i % len(withs)], withs[-1 - (j % (len(withs) - 1))] if withs[i % len(withs)] is not withs[-1] else withs[0]
+            if a is b:
+                b = withs[(i + 1) % len(withs)]
+            b["slots"].append([a["slots"][0][0], 4, 3])
+            return t
+
+        tree = st.builds(lambda eb, t: dict(_tree_unique(t), producer="envelope-tree", eb=eb), ebs, tree_s(0))
+        treedup = st.builds(lambda eb, t, i, j: dict(_tree_dup(_tree_unique(t), i, j), producer="envelope-tree", eb=eb), ebs, tree_s(0), st.integers(0, 9), st.integers(0, 9))
+        strat = st.one_of(pay, pay, merge, merge, paydup, mergedup, envp, tree, tree, treedup)
         run_given(ctx, acc, "seq", strat, lambda c, a: judge(c, a, ctx), seed=ctx.seed * 1000 + spec["i"], n=spec["n"])
     return acc
 
@@ -357,6 +432,6 @@ def finalize(ctx, m, ev):
     ev["coverage"]["exhaustive_scope"] = "plane eb x residue x {first,later}; sequences are sampled"
     if c.get("accepted", 0) < 0.5 * m["evals"]:
         raise boot.HarnessError(f"only {c.get('accepted', 0)} of {m['evals']} cases were accepted by the tool: check is vacuous")
-    for need in ("branch:none", "branch:short", "branch:long", "negative:duplicate-uri", "producer:merge", "producer:envelope"):
+    for need in ("branch:none", "branch:short", "branch:long", "negative:duplicate-uri", "producer:merge", "producer:envelope", "producer:envelope-tree", "tree:depth>=2", "tree:duplicate-across-levels"):
         if not c.get(need):
             raise boot.HarnessError(f"interesting class {need} is empty")
